@@ -162,6 +162,26 @@ class CallGraph(object):
             f = e.func
             if isinstance(f, ast.Name) and f.id == 'super':
                 return out
+            if isinstance(f, ast.Attribute) and f.attr == '__subclasses__':
+                for t in self.etype(fi, f.value):
+                    if t[0] == 'cls':
+                        for c in self.db.classes:
+                            if t[1] in [b for b in c.bases
+                                        if isinstance(b, ClassInfo)]:
+                                out.add(('elem', ('cls', c)))
+                return out
+            if isinstance(f, ast.Attribute) and f.attr in ('get', 'pop',
+                                                           'popleft'):
+                for t in self.etype(fi, f.value):
+                    if t[0] == 'elem':
+                        out.add(t[1])
+                if out:
+                    return out
+            if isinstance(f, ast.Name) and f.id in ('iter', 'list', 'tuple',
+                                                    'reversed', 'sorted') \
+                    and e.args:
+                return {t for t in self.etype(fi, e.args[0])
+                        if t[0] == 'elem'}
             for t in self.etype(fi, f):
                 if t[0] == 'cls':
                     out.add(('inst', t[1]))
@@ -178,8 +198,8 @@ class CallGraph(object):
                 out |= self.etype(fi, v)
             return out
         if isinstance(e, ast.Subscript):
-            # element of a homogeneous container field: keep element types
-            return {t for t in self.etype(fi, e.value) if t[0] == 'elem'}
+            # element of a homogeneous container
+            return {t[1] for t in self.etype(fi, e.value) if t[0] == 'elem'}
         return set()
 
     def attr_types(self, t, attr):
@@ -191,9 +211,8 @@ class CallGraph(object):
         if kind in ('inst', 'cls'):
             ci = t[1]
             out = set()
-            if kind == 'inst':
-                for k in self.db.mro(ci):
-                    out |= self.fields.get((k, attr), set())
+            for k in self.db.mro(ci):
+                out |= self.fields.get((k, attr), set())
             ad = self.db.find_attr(ci, attr)
             if ad is not None:
                 ent = self.db.attrdef_entity(ad)
@@ -208,7 +227,27 @@ class CallGraph(object):
         return set()
 
     # ------------------------------------------------------------------
+    def _class_body_stores(self):
+        changed = False
+        for ci in self.db.classes:
+            for st in ci.node.body:
+                if isinstance(st, ast.Assign) and len(st.targets) == 1 and \
+                        isinstance(st.targets[0], ast.Subscript):
+                    tgt = st.targets[0].value
+                    val = self.db.resolve_dotted(ci.module, st.value,
+                                                 class_scope=ci)
+                    if isinstance(val, ClassInfo) and \
+                            isinstance(tgt, ast.Attribute):
+                        base = self.db.resolve_dotted(ci.module, tgt.value,
+                                                      class_scope=ci)
+                        if isinstance(base, ClassInfo):
+                            changed |= self._add(
+                                self.fields, (base, tgt.attr),
+                                {('elem', ('cls', val))})
+        return changed
+
     def _fixpoint(self):
+        self._class_body_stores()
         for rnd in range(MAX_ROUNDS):
             changed = False
             for fi in self.db.funcs:
@@ -234,7 +273,9 @@ class CallGraph(object):
                 for t in n.targets:
                     changed |= self._store(fi, t, vt, n.value)
             elif isinstance(n, ast.For):
-                pass
+                et = {t[1] for t in self.etype(fi, n.iter) if t[0] == 'elem'}
+                if isinstance(n.target, ast.Name):
+                    changed |= self._add(loc, n.target.id, et)
             elif isinstance(n, ast.With):
                 for it in n.items:
                     if it.optional_vars is not None and \
@@ -247,6 +288,12 @@ class CallGraph(object):
                                       if t[0] in ('inst', 'cls')})
             elif isinstance(n, ast.Call):
                 changed |= self._flow_args(fi, n)
+                f = n.func
+                if isinstance(f, ast.Attribute) and f.attr in (
+                        'append', 'add', 'appendleft') and len(n.args) == 1:
+                    et = {('elem', t) for t in self.etype(fi, n.args[0])
+                          if t[0] in ('inst', 'cls')}
+                    changed |= self._store(fi, f.value, et, n.args[0])
         return changed
 
     def _store(self, fi, target, vt, value):
@@ -256,11 +303,15 @@ class CallGraph(object):
                                  {t for t in vt})
         elif isinstance(target, ast.Attribute):
             for bt in self.etype(fi, target.value):
-                if bt[0] == 'inst':
+                if bt[0] in ('inst', 'cls'):
                     # record on the static class of the receiver
                     changed |= self._add(self.fields, (bt[1], target.attr),
                                          {t for t in vt
-                                          if t[0] in ('inst', 'cls', 'func')})
+                                          if t[0] in ('inst', 'cls', 'func',
+                                                      'elem')})
+        elif isinstance(target, ast.Subscript):
+            et = {('elem', t) for t in vt if t[0] in ('inst', 'cls')}
+            changed |= self._store(fi, target.value, et, value)
         elif isinstance(target, (ast.Tuple, ast.List)) and \
                 isinstance(value, (ast.Tuple, ast.List)) and \
                 len(value.elts) == len(target.elts):
